@@ -9,7 +9,9 @@
 package gocql
 
 import (
+	"bytes"
 	"encoding/hex"
+	"encoding/json"
 	"fmt"
 	"math"
 	"math/big"
@@ -539,6 +541,10 @@ func vxScalarCandidates(k cqlspec.Kind, role int) []reflect.Type {
 		}
 		return []reflect.Type{vxTCQLDur, vxTInt64, vxTDur, vxTString, vxTNamedI64}
 	case cqlspec.UUID, cqlspec.TimeUUID:
+		if k == cqlspec.TimeUUID && role == vxDst {
+			// "timeuuid | *time.Time | timestamp of the UUID" (Unmarshal only)
+			return []reflect.Type{vxTUUID, vxTArr16, vxTBytes, vxTString, vxTTime}
+		}
 		return []reflect.Type{vxTUUID, vxTArr16, vxTBytes, vxTString}
 	case cqlspec.Inet:
 		return []reflect.Type{vxTIP, vxTString}
@@ -694,9 +700,23 @@ func vxPick(ty *cqlspec.Type, vs []cqlspec.Value, ch *vxCh, role int, key bool) 
 		kt := vxPick(ty.Elems[0], ks, ch, role, true)
 		return reflect.MapOf(kt, vxPick(ty.Elems[1], xs, ch, role, false))
 	case cqlspec.Tuple:
-		form := ch.next(3)
+		form := ch.next(4)
 		if form == 0 || key {
 			base = vxTIfaceSlice
+			break
+		}
+		if form == 3 && vxHomogeneous(ty) {
+			// "tuple | slice, array": a typed slice / array whose element type serves every position
+			var all []cqlspec.Value
+			for _, v := range nn {
+				all = append(all, v.Elems...)
+			}
+			et := vxPick(ty.Elems[0], all, ch, role, false)
+			if ch.next(2) == 0 {
+				base = reflect.SliceOf(et)
+			} else {
+				base = reflect.ArrayOf(len(ty.Elems), et)
+			}
 			break
 		}
 		var fields []reflect.StructField
@@ -778,6 +798,21 @@ func vxPick(ty *cqlspec.Type, vs []cqlspec.Value, ch *vxCh, role int, key bool) 
 		return reflect.PtrTo(base)
 	}
 	return base
+}
+
+// vxHomogeneous: a tuple with at least one element whose element types are all the same type tree.
+func vxHomogeneous(ty *cqlspec.Type) bool {
+	if len(ty.Elems) == 0 {
+		return false
+	}
+	a, _ := json.Marshal(ty.Elems[0])
+	for _, e := range ty.Elems[1:] {
+		b, _ := json.Marshal(e)
+		if !bytes.Equal(a, b) {
+			return false
+		}
+	}
+	return true
 }
 
 func vxAnyNull(vs []cqlspec.Value) bool {
@@ -905,6 +940,22 @@ func vxToGo(ty *cqlspec.Type, v cqlspec.Value, gt reflect.Type, ch *vxCh) (rv re
 				s[i] = x.Interface()
 			}
 			return reflect.ValueOf(s), nil
+		}
+		if gt.Kind() == reflect.Slice || gt.Kind() == reflect.Array {
+			var s reflect.Value
+			if gt.Kind() == reflect.Slice {
+				s = reflect.MakeSlice(gt, len(v.Elems), len(v.Elems))
+			} else {
+				s = reflect.New(gt).Elem()
+			}
+			for i, e := range v.Elems {
+				x, err := vxToGo(ty.Elems[i], e, gt.Elem(), ch)
+				if err != nil {
+					return rv, err
+				}
+				s.Index(i).Set(x)
+			}
+			return s, nil
 		}
 		st := reflect.New(gt).Elem()
 		for i, e := range v.Elems {
@@ -1380,6 +1431,18 @@ func vxCompareScalar(k cqlspec.Kind, want cqlspec.Value, rv reflect.Value, path 
 	case cqlspec.UUID, cqlspec.TimeUUID:
 		var got string
 		switch {
+		case gt == vxTTime:
+			// the 60-bit count of 100 ns ticks since 1582-10-15 (RFC 4122 field layout)
+			wb, _ := hex.DecodeString(want.Hex)
+			if len(wb) != 16 {
+				return bad("harness: uuid of wrong length")
+			}
+			ts := int64(wb[0])<<24 | int64(wb[1])<<16 | int64(wb[2])<<8 | int64(wb[3]) | (int64(wb[4])<<8|int64(wb[5]))<<32 | (int64(wb[6]&0x0f)<<8|int64(wb[7]))<<48
+			wt := vxTickTime(ts, 0)
+			if gotT := rv.Interface().(time.Time); !gotT.Equal(wt) {
+				return bad(gotT.UTC().Format(time.RFC3339Nano) + " (the UUID's timestamp is " + wt.Format(time.RFC3339Nano) + ")")
+			}
+			return nil
 		case gt == vxTUUID || gt == vxTArr16:
 			b := make([]byte, 16)
 			reflect.Copy(reflect.ValueOf(b), rv)
